@@ -49,9 +49,12 @@ fn main() {
             // Each history runs in a forked child: a panic inside a destructor while another panic
             // unwinds (poisoned locks) aborts the process, and that must be data, not a tool failure.
             clock::enable();
+            let mut hangs = 0;
             for line in input.lines() {
                 let line = line.unwrap();
                 if line.trim().is_empty() { continue; }
+                // after five histories that never returned the verdict is settled; the rest of this shard would only cost their time-outs
+                if hangs >= 5 { continue; }
                 let hist: serde_json::Value = serde_json::from_str(&line).expect("bad history json");
                 out.flush().unwrap();
                 let pid = unsafe { libc::fork() };
@@ -60,9 +63,19 @@ fn main() {
                     out.flush().unwrap();
                     unsafe { libc::_exit(0) };
                 }
+                // a history that does not finish (a call that blocks for ever, e.g. a lock taken twice on an error path) is data too:
+                // the child is killed after 5 s (a history takes milliseconds: the clock is virtual) and the history ends with an `abort` record that says so
                 let mut status: libc::c_int = 0;
-                unsafe { libc::waitpid(pid, &mut status, 0); }
-                if !(libc::WIFEXITED(status) && libc::WEXITSTATUS(status) == 0) {
+                let t0 = clock::real_ns();      // the virtual clock is on in this process: Instant::now() stands still
+                let mut hung = false;
+                loop {
+                    let r = unsafe { libc::waitpid(pid, &mut status, libc::WNOHANG) };
+                    if r == pid { break; }
+                    let el = clock::real_ns() - t0;
+                    if el > 5_000_000_000 { hung = true; hangs += 1; unsafe { libc::kill(pid, libc::SIGKILL); libc::waitpid(pid, &mut status, 0); } break; }
+                    unsafe { libc::usleep(if el < 50_000_000 { 100 } else { 5000 }); }
+                }
+                if hung || !(libc::WIFEXITED(status) && libc::WEXITSTATUS(status) == 0) {
                     use std::io::Seek;
                     out.flush().unwrap();
                     // the child may have died in the middle of a record: cut the file back to the last complete line
@@ -71,7 +84,7 @@ fn main() {
                     let _ = out.get_mut().seek(std::io::SeekFrom::End(0));
                     let n = hist["ops"].as_array().map(|a| a.len()).unwrap_or(0);
                     writeln!(out, "{}", serde_json::json!({"h": hist["h"], "i": n + 1, "op": "abort", "b": 0, "calls": [], "q": 0, "t": 0, "ret": "abort",
-                        "panic": format!("process aborted (status {status}): panic while panicking"), "pipe": 0, "failed": 0,
+                        "panic": if hung { "hang: a call did not return within 5 s (the history was killed)".to_string() } else { format!("process aborted (status {status}): panic while panicking") }, "pipe": 0, "failed": 0,
                         "frac": -1, "shown": [], "get": {"has": false, "pos": [0,0,0,0,0], "pos_s": 0, "len": [0,0,0,0,0], "len_s": 0, "haslen": false, "msg": [], "prefix": [], "fin": false, "elapsed_us": 0}})).unwrap();
                 }
             }
